@@ -187,7 +187,45 @@ func init() {
 			})
 			base += n * 4
 		}
+		// history independence: the verdict on a calendar does not depend on what was validated before.
+		// Every ordered pair of the calendars with at most 2 components (964 x 964), back to back in one
+		// goroutine per first element.
+		var small []c19Case
+		for l := 0; l <= 2; l++ {
+			n := 1
+			for k := 0; k < l; k++ {
+				n *= 15
+			}
+			for i := 0; i < n*4; i++ {
+				small = append(small, c19Decode(i/4, l, i%4))
+			}
+		}
+		r.Extra["history_pairs"] = len(small) * len(small)
+		hbase := int64(1) << 40
+		r.Parallel(len(small), func(ai int, s *engine.Shard) {
+			for bi, b := range small {
+				c19Eval(small[ai])
+				held, sig, exp, obs := c19Eval(b)
+				s.Transition()
+				s.Transition()
+				s.Clause("history independence: verdict after another validation")
+				if !held {
+					s.Violate(engine.Violation{Sig: strings.Replace(sig, "C19/", "C19/history/", 1), Clause: "history", Index: hbase + int64(ai)*int64(len(small)) + int64(bi), Kind: "C19-history",
+						Case: map[string]interface{}{"First": small[ai], "Second": b}, Expected: exp, Observed: obs})
+				}
+			}
+			s.Nontrivial(fmt.Sprintf("H/%d", ai))
+		})
 		r.Extra["max_components"] = maxLen
+	})
+	registerReplay("C19-history", func(raw json.RawMessage) (bool, string) {
+		var c struct{ First, Second c19Case }
+		if err := json.Unmarshal(raw, &c); err != nil {
+			return false, err.Error()
+		}
+		c19Eval(c.First)
+		held, _, exp, obs := c19Eval(c.Second)
+		return held, "expected " + exp + " observed " + obs
 	})
 	registerReplay("C19", func(raw json.RawMessage) (bool, string) {
 		var c c19Case
